@@ -164,6 +164,34 @@ theorem image_instant_partial (app : R → M → M) (s0 : St M R) (hfresh : Fres
   rw [run_append, stage5_run_frozen app _ es' h5 hes']
   exact image_is_prefix_of_history_partial app s0 hfresh es hnc h5
 
+/-- in stage MAIN_COPY only the copy itself ends the stage -/
+theorem stage3_step_stage (app : R → M → M) (s : St M R) (e : Evt R) (h3 : s.stage = 3)
+    (he : e ≠ .bkpCopyMain) : (step app s e).stage = 3 := by
+  cases e with
+  | bkpCopyMain => exact absurd rfl he
+  | write r => simp only [step]; split <;> simp [write, append, h3]
+  | grow => simp only [step]; split <;> simp [grow, append, h3]
+  | checkpoint => simp only [step]; split <;> simp [checkpoint, h3]
+  | savepoint => simp only [step]; split <;> simp [savepoint, flush, append, h3]
+  | bkpStart => simp [step, bkpStart, h3]
+  | bkpCleanup => simp [step, h3]
+  | bkpFinalSavepoint => simp [step, h3]
+  | bkpFinish => simp [step, h3]
+
+/-- **the moment of the copy does not matter**: however many events of the other threads fall into stage
+    MAIN_COPY, in whatever order, the durable main file that the copy loop reads stays what it was when the
+    stage began (`main_stable` lifted to every history inside the stage). -/
+theorem stage3_run_main_stable (app : R → M → M) (s : St M R) (es : List (Evt R)) (h3 : s.stage = 3)
+    (hes : ∀ e ∈ es, e ≠ .bkpCopyMain) : (run app s es).stage = 3 ∧ (run app s es).main = s.main := by
+  induction es generalizing s with
+  | nil => exact ⟨h3, rfl⟩
+  | cons e es ih =>
+    have hrun : run app s (e :: es) = run app (step app s e) es := rfl
+    have h3' := stage3_step_stage app s e h3 (hes e (by simp))
+    obtain ⟨a, b⟩ := ih (step app s e) h3' (fun e' he' => hes e' (by simp [he']))
+    rw [hrun]
+    exact ⟨a, b.trans (main_stable app s e h3)⟩
+
 /-- the writes done in a history are those of its first part followed by those of the rest -/
 theorem writesDone_append (app : R → M → M) (s : St M R) (a b : List (Evt R)) :
     writesDone app s (a ++ b) = writesDone app s a ++ writesDone app (run app s a) b := by
